@@ -42,6 +42,10 @@ func checkC20(c *Ctx) {
 	c.Decides("CANDIDATES: every branch created by the uniform generator is appended to the list the insertion point is drawn from")
 	c.uniformCandidates("CANDIDATES")
 	c.Floor("CANDIDATES", 4)
+	c.Decides("ALL-MEMBERS (shared with C13): no gzip reader has Multistream switched off: every tree of a compressed input can be drawn")
+	if sites, _ := c.gzipAllMembers("ALL-MEMBERS", "every input element has a non-zero chance of being selected"); sites > 0 {
+		c.Trivial("ALL-MEMBERS", "scan", 0, fmt.Sprintf("%d gzip readers, none with Multistream switched off", sites))
+	}
 	c.Floor("DRAW", 6)
 	n := 0
 	for _, p := range c.All {
